@@ -83,6 +83,7 @@ fn run_job(w: &World, map: &Beatmap, job: &Job) -> String {
         2 => calc_for_mode(&d, map, target).map_or_else(|e| e, |a| a.dump().line()),
         3 => strains_for_mode(&d, map, target).map_or_else(|e| e, |a| format!("{:016x}", crate::engine::fnv(a.dump().line().as_bytes()))),
         4 => w.score.apply(perf_for_mode(map, target).difficulty(d)).calculate().dump().line(),
+        6 => format!("{:016x}", map.bpm().to_bits()),
         _ => {
             let mut dg = ds.clone();
             dg.passed = None;
@@ -116,6 +117,13 @@ fn gen_world(t: &mut Tape) -> (World, Vec<Job>) {
             gen_map(t, &prof)
         })
         .collect();
+    let mut specs = specs;
+    // a fifth of the ordinary worlds: map 0 is one of C01's tie-heavy maps (several beat lengths with equal
+    // accumulated durations) and bpm() joins the job kinds
+    let tie_world = !conversion_heavy && t.chance(1, 5);
+    if tie_world {
+        specs[0] = super::c01::tie_heavy(t);
+    }
     let texts: Vec<String> = specs.iter().map(MapSpec::render).collect();
     let maps: Vec<Beatmap> = specs.iter().map(MapSpec::decode).collect();
     // a third of the worlds is "seed-heavy": every job carries a lazer Random mod with its own seed, so
@@ -140,7 +148,7 @@ fn gen_world(t: &mut Tape) -> (World, Vec<Job>) {
     let jobs = (0..n_jobs)
         .map(|_| Job {
             map: if t.chance(1, 2) { 0 } else { t.below_usize(n_maps) },
-            kind: if seed_heavy { *t.pick(&[2u8, 2, 3, 4, 5]) } else if conversion_heavy { *t.pick(&[1u8, 1, 2, 2, 3]) } else { t.below(6) as u8 },
+            kind: if seed_heavy { *t.pick(&[2u8, 2, 3, 4, 5]) } else if conversion_heavy { *t.pick(&[1u8, 1, 2, 2, 3]) } else if tie_world { *t.pick(&[6u8, 6, 6, 2, 0, 1, 3, 4, 5]) } else { t.below(7) as u8 },
             mode: if seed_heavy { *t.pick(&[1u8, 3]) } else if conversion_heavy { *t.pick(&[3u8, 3, 3, 1]) } else { *t.pick(&[1u8, 1, 0, 2, 3]) },
             d: t.below_usize(3),
             yields: t.below(4) as u8,
@@ -371,7 +379,7 @@ pub fn property() -> Property {
         subchecks: vec![
             SubCheck {
                 name: "thread-pool-vs-sequential",
-                rule: "job list of 8-64 jobs over 2-4 maps (decode, convert_ref, difficulty, strains, performance, gradual drain; half of the jobs on map 0 so maps are shared) x thread count 2..16 x assignment (generated static partition or shared atomic queue) x sharing mode (&Beatmap through thread::scope or Arc<Beatmap>) x per-job perturbation (0-3 yield_now, optional spin); a third of the job lists is seed-heavy (taiko/mania calculations under lazer Random mods with distinct seeds per settings object), a quarter conversion-heavy (2-4 different osu maps of up to 60 objects converted to mania/taiko concurrently), a tenth of the maps are marathons (all gaps 100-300 s). Oracle: the result vector of the threaded run equals the sequential run of the same job list (canonical lines / digests). Run on the default and the `sync` build (thorough: additionally under ThreadSanitizer). Non-trivial: >=2 threads touch the same map and >=1 taiko calculation job.",
+                rule: "job list of 8-64 jobs over 2-4 maps (decode, convert_ref, difficulty, strains, performance, gradual drain, bpm; half of the jobs on map 0 so maps are shared) x thread count 2..16 x assignment (generated static partition or shared atomic queue) x sharing mode (&Beatmap through thread::scope or Arc<Beatmap>) x per-job perturbation (0-3 yield_now, optional spin); a third of the job lists is seed-heavy (taiko/mania calculations under lazer Random mods with distinct seeds per settings object), a quarter conversion-heavy (2-4 different osu maps of up to 60 objects converted to mania/taiko concurrently), a tenth of the maps are marathons (all gaps 100-300 s), a fifth of the ordinary worlds has a tie-heavy map 0 (equal accumulated beat-length durations) with mostly bpm jobs. Oracle: the result vector of the threaded run equals the sequential run of the same job list (canonical lines / digests). Run on the default and the `sync` build (thorough: additionally under ThreadSanitizer). Non-trivial: >=2 threads touch the same map and >=1 taiko calculation job.",
                 quick: 1500,
                 thorough: 25_000,
                 tape_len: 3400,
